@@ -10,6 +10,7 @@
 #      model Explain.explain, for which sufficiency is proved (Props/C20.v).
 import json
 import random
+from fractions import Fraction
 from harness import fml
 from harness.common import parse_fields, run_impl
 from harness.runner import Check, need_vars
@@ -66,13 +67,95 @@ def gen_formula(rng, nv, d, wild):
     return go(d)
 
 
+UNIT_NS = {'s': 10 ** 9, 'ms': 10 ** 6, 'us': 10 ** 3, 'ns': 1}
+BOUND_STYLES = ['plain', 'plain', 'plain', 's', 'us', 'ns', 'ms', 'plain_begin', 'plain_end', 'two', 'vary', 'vary']
+
+
+def default_unit(c):
+    return c.get('unit') or 's'
+
+
+def bound_number(samples, period_ms, unit):
+    """the number that denotes `samples` sampling periods of period_ms milliseconds in `unit` (a decimal literal when it is not whole)"""
+    v = Fraction(samples * period_ms * 10 ** 6, UNIT_NS[unit])
+    if v.denominator == 1:
+        return str(v.numerator)
+    whole, rest = divmod(v * 10 ** 6, 10 ** 6)
+    return ('%d.%06d' % (whole, rest)).rstrip('0')
+
+
+def bound_renderer(c):
+    """how the bounds (sampling periods in the formula) are written in the text of the specification.
+    No 'bstyle': both bounds in ms (the original stream).  'plain': no unit, the number counts default units of the specification
+    (s, or spec.unit) - NOT sampling periods; 's' / 'ms' / 'us': that unit on both bounds, whatever the unit of the period;
+    'plain_begin' / 'plain_end': one bound without a unit, which then takes the unit of the other one; 'vary': each interval of the
+    text draws its own spelling (seeded by the case)."""
+    pm = c.get('period_ms')
+    if not pm:
+        return None
+    style = c.get('bstyle')
+    if not style:
+        return lambda b, e: '[%dms,%dms]' % (b * pm, e * pm)
+    rng = random.Random(c.get('seed', 0))
+
+    def one(st, u, b, e):
+        du = default_unit(c)
+        if st == 'plain':
+            return '[%s,%s]' % (bound_number(b, pm, du), bound_number(e, pm, du))
+        if st == 'plain_begin':
+            return '[%s,%s%s]' % (bound_number(b, pm, u), bound_number(e, pm, u), u)
+        if st == 'plain_end':
+            return '[%s%s,%s]' % (bound_number(b, pm, u), u, bound_number(e, pm, u))
+        if st == 'two':
+            u2 = {'s': 'ms', 'ms': 'us', 'us': 'ns', 'ns': 's'}[u]
+            return '[%s%s,%s%s]' % (bound_number(b, pm, u), u, bound_number(e, pm, u2), u2)
+        return '[%s%s,%s%s]' % (bound_number(b, pm, st), st, bound_number(e, pm, st), st)
+
+    def bound(b, e):
+        u = c.get('bunit') or 's'
+        if style == 'vary':
+            return one(rng.choice(['plain', 'plain', 's', 'ms', 'us', 'ns', 'plain_begin', 'plain_end', 'two']), rng.choice(['s', 'ms', 'us', 'ns']), b, e)
+        return one(style, u, b, e)
+    return bound
+
+
+def bounds_class(c):
+    """the class of the case for the feature histogram"""
+    if not c.get('period_ms'):
+        return None
+    if not any(s[0] in fml.TUN or s[0] in ('sincet', 'untilt') for f in c['fs'] for s in fml.subformulas(f)):
+        return None
+    st = c.get('bstyle')
+    if not st:
+        return 'bounds_in_ms_of_the_period'
+    same = Fraction(c['period_ms'] * 10 ** 6, UNIT_NS[default_unit(c)]) == 1
+    if st == 'plain':
+        return 'bounds_without_unit_period_is_one_default_unit' if same else 'bounds_without_unit_period_differs_from_default_unit'
+    if st == 'vary':
+        return 'bounds_spelled_per_interval'
+    if st in ('plain_begin', 'plain_end'):
+        return 'bounds_one_unit_inherited'
+    if st == 'two':
+        return 'bounds_in_two_units'
+    return 'bounds_in_unit_other_than_period' if st != 'ms' else 'bounds_in_ms_of_the_period'
+
+
+def period_text(c):
+    if not c.get('period_ms'):
+        return {}
+    case = C20.with_period(None, c, {})
+    out = {'set_sampling_period': case.get('period') or case.get('late_period')}
+    if c.get('late'):
+        out['set_sampling_period_called'] = 'after parse()'
+    if c.get('unit'):
+        out['spec.unit'] = c['unit']
+    return out
+
+
 def spec_text(c):
     fs = c['fs']
     lines = []
-    bound = None
-    if c.get('period_ms'):
-        # the sampling period is period_ms milliseconds; bounds are written in ms
-        bound = lambda b, e: '[%dms,%dms]' % (b * c['period_ms'], e * c['period_ms'])
+    bound = bound_renderer(c)
     for k, f in enumerate(fs):
         name = 'out' if k == len(fs) - 1 else 'as%d' % (k + 1)
         t = fml.to_text(f, bound)
@@ -93,7 +176,14 @@ def top(c):
 
 
 def dataset(c, cols):
-    data = {'time': [k * c['period_ms'] / 1000.0 for k in range(c['n'])] if c.get('period_ms') else list(range(c['n']))}
+    if c.get('period_ms') and default_unit(c) == 's':
+        data = {'time': [k * c['period_ms'] / 1000.0 for k in range(c['n'])]}
+    elif c.get('period_ms'):
+        # the time stamps count default units of the specification
+        step = Fraction(c['period_ms'] * 10 ** 6, UNIT_NS[default_unit(c)])
+        data = {'time': [(k * step).numerator if (k * step).denominator == 1 else float(k * step) for k in range(c['n'])]}
+    else:
+        data = {'time': list(range(c['n']))}
     for i in range(c['nv']):
         data[fml.VARS[i]] = list(cols[i])
     return data
@@ -156,12 +246,38 @@ def reassignments(rng, c, tb, count):
     return out
 
 
+# sampling periods (in ms), the default unit of the specification (spec.unit) and the unit the period is given in
+PERIODS = [{'period_ms': 100}, {'period_ms': 250}, {'period_ms': 500}, {'period_ms': 500}, {'period_ms': 1000}, {'period_ms': 2000}, {'period_ms': 2000, 'punit': 's'},
+           {'period_ms': 2, 'unit': 'ms'}, {'period_ms': 5, 'unit': 'ms'}, {'period_ms': 2, 'unit': 'us'}, {'period_ms': 1, 'unit': 'us', 'punit': 'us'},
+           {'period_ms': 3000, 'unit': 'ms', 'punit': 's'}]
+PERIOD_CORNERS = [
+    {'period_ms': 500, 'bstyle': 'plain'},                                  # [0,2] spans 4 sampling periods
+    {'period_ms': 500, 'bstyle': 's'},                                      # the same with the unit written
+    {'period_ms': 2000, 'bstyle': 'plain'},                                 # [2,6] spans samples 1..3
+    {'period_ms': 2000, 'bstyle': 'plain', 'punit': 's'},
+    {'period_ms': 100, 'bstyle': 'plain'},                                  # decimal bounds: [0.1,0.3]
+    {'period_ms': 1000, 'bstyle': 'plain'},                                 # one default unit, written in ms
+    {'period_ms': 2, 'bstyle': 'plain', 'unit': 'ms'},                      # default unit of the specification ms
+    {'period_ms': 2, 'bstyle': 'plain', 'unit': 'us'},
+    {'period_ms': 1, 'bstyle': 'plain', 'unit': 'us', 'punit': 'us'},
+    {'period_ms': 500, 'bstyle': 'us'},
+    {'period_ms': 500, 'bstyle': 'ns'},
+    {'period_ms': 500, 'bstyle': 'plain_begin', 'bunit': 's'},              # [1,2s]: the begin takes the unit of the end
+    {'period_ms': 500, 'bstyle': 'plain_end', 'bunit': 'ms'},
+    {'period_ms': 500, 'bstyle': 'two', 'bunit': 's'},                      # [1s,2000ms]
+    {'period_ms': 250, 'bstyle': 'vary'},
+    {'period_ms': 500, 'bstyle': 'plain', 'late': True},                    # set_sampling_period() after parse()
+]
+
+
 class C20(Check):
     PID = 'C20'
     SHRINK_BUDGET = 120
     RULE = ('seeded random discrete-time offline specifications of the explainable fragment (Boolean/temporal structure over predicates: not/and/or/implies, '
             '(bounded) eventually/always/once/historically, prev/next, rise/fall; 1-2 assertions: the specification is the last one, which may refer to the first as a named sub-specification, or leave it unreferenced) plus a wild stream (iff/xor over composite operands, temporal operators below comparisons, unsupported since/until) '
-            'x traces of 1-8 samples over -4..6; per violated case the positions explain() did not report are re-assigned (flip, +9, -9, 0, random) and '
+            'x traces of 1-8 samples over -4..6 x sampling period: the default 1 s, or 1 ms .. 3 s given in ms / s / us before or after parse() with the bounds written in ms of the period, '
+            'without a unit (they then count default units of the specification - s, or spec.unit = ms / us - not sampling periods: [0,2] at 500 ms spans 4 periods; decimal bounds), in a unit other than the one of the period (s / ms / us / ns), '
+            'with one unit-less bound that takes the unit of the other, in two units, or spelled per interval; per violated case the positions explain() did not report are re-assigned (flip, +9, -9, 0, random) and '
             'evaluate() must stay negative at time 0; the reported table must equal the model Explain.explain (sufficiency proved in Props/C20.v); a satisfied '
             'specification must report nothing, also when the same object was violated on earlier data; non-trivial = violated with >= 1 unreported position; distinct by (spec, trace)')
 
@@ -219,6 +335,22 @@ class C20(Check):
         for (f, cols) in crafted:
             cases.append({'fs': [f], 'f': f, 'nv': 3, 'n': len(cols[0]), 'cols': cols, 'seed': 7})
             cases.append({'fs': [f], 'f': f, 'nv': 3, 'n': len(cols[0]), 'cols': cols, 'seed': 8, 'period_ms': 100})
+        # the number written in a bound is not the number of samples: bounds without a unit count default units of the specification (s, or
+        # spec.unit) while the sampling period is something else, bounds carry a unit other than the one of the period, one bound takes the
+        # unit of the other one, decimal bounds; the period is given in ms / s / us, before or after parse()
+        A0 = ('pred', 'geq', ('var', 0), ('const', 0))
+        timed = [(f, cols) for (f, cols) in crafted if any(s[0] in fml.TUN for s in fml.subformulas(f)) and shape(f) == 'explainable'] + [
+            (('alwt', 0, 4, A0), [[1, 1, 1, -1, 1, 1, 1, 1], [0] * 8, [0] * 8]),
+            (('evt', 0, 4, A0), [[-1] * 8, [0] * 8, [0] * 8]),
+            (('alwt', 2, 4, ('oncet', 0, 2, A0)), [[1, -1, -1, -1, -1, 1, 1, 1], [0] * 8, [0] * 8]),
+            (('alwt', 1, 3, A0), [[-1, 1, 1, -1, -1, 1, 1, 1], [0] * 8, [0] * 8]),
+            (('not', ('evt', 3, 5, ('not', A0))), [[1, 1, 1, 1, -1, 1, 1, 1], [0] * 8, [0] * 8]),
+            (('next', ('next', ('next', ('next', ('histt', 1, 3, A0))))), [[1, -1, 1, 1, 1, 1, 1, 1], [0] * 8, [0] * 8]),
+            (('implies', ('evt', 2, 2, A0), ('alwt', 4, 6, Y0)), [[-1, -1, 1, -1, -1, -1, -1, -1], [1, 1, 1, 1, 1, -1, 1, 1], [0] * 8]),
+        ]
+        for (f, cols) in timed:
+            for j, cfg in enumerate(PERIOD_CORNERS):
+                cases.append(dict(cfg, fs=[f], f=f, nv=3, n=len(cols[0]), cols=cols, seed=11 + j))
         for i in range(nrand):
             nv = rng.choice([1, 2, 2, 3])
             wild = rng.random() < 0.2
@@ -230,8 +362,14 @@ class C20(Check):
             nv = max(need_vars(f, nv) for f in fs)
             n = rng.choice([1, 2, 3, 4, 5, 6, 8])
             c = {'fs': fs, 'f': fs[-1], 'nv': nv, 'n': n, 'cols': fml.gen_trace(rng, nv, n), 'seed': rng.randrange(1 << 30)}
-            if rng.random() < 0.15:
+            if rng.random() < 0.3:
                 c['period_ms'] = rng.choice([100, 500, 2000])
+                if rng.random() < 0.7:
+                    c.update(rng.choice(PERIODS))
+                    c['bstyle'] = rng.choice(BOUND_STYLES)
+                    c['bunit'] = rng.choice(['s', 'ms', 'us', 'ns'])
+                    if rng.random() < 0.15:
+                        c['late'] = True
             if rng.random() < 0.2:
                 c['cols2'] = fml.gen_trace(rng, nv, n)
             if len(fs) > 1 and rng.random() < 0.6:
@@ -275,7 +413,13 @@ class C20(Check):
 
     def with_period(self, c, case):
         if c.get('period_ms'):
-            case['period'] = [c['period_ms'], 'ms', 0.1]
+            pu = c.get('punit') or 'ms'
+            v = Fraction(c['period_ms'] * 10 ** 6, UNIT_NS[pu])
+            per = [v.numerator if v.denominator == 1 else float(v), pu, 0.1] if pu != 'ms' else [c['period_ms'], 'ms', 0.1]
+            # 'late': the sampling period is set after parse() (the bounds are converted when evaluate() / explain() read them)
+            case['late_period' if c.get('late') else 'period'] = per
+            if c.get('unit'):
+                case['unit'] = c['unit']
         return case
 
     def replay_cases(self, c):
@@ -327,7 +471,7 @@ class C20(Check):
                             bad = {'assertion': nm, 'robustness_at_0_on_reassigned_trace': v0}
                             break
             if bad is not None:
-                verdicts[k] = ('violation', {'spec': text, 'trace': dataset(c, c['cols']), 'reported': {fml.VARS[i]: iv for i, iv in tb.items()},
+                verdicts[k] = ('violation', {'spec': text, 'sampling': period_text(c), 'trace': dataset(c, c['cols']), 'reported': {fml.VARS[i]: iv for i, iv in tb.items()},
                                              'reassigned_trace': dataset(c, cols), 'expected': 'still violated at time 0 (the trace coincides with the original on every reported position)',
                                              'observed': bad, 'kind': 'insufficient',
                                              'replay_calls': [['evaluate', dataset(c, c['cols'])], ['explain'], ['evaluate', dataset(c, cols)], ['get_value', 'out']]})
@@ -335,7 +479,7 @@ class C20(Check):
 
     def judge_table(self, c, mlines, i):
         text, names = spec_text(c)
-        det = {'spec': text, 'trace': dataset(c, c['cols'])}
+        det = dict({'spec': text, 'trace': dataset(c, c['cols'])}, **period_text(c))
         flds = [parse_fields(l) for l in mlines]
         if any('ERROR' in f for f in flds):
             return 'model-error', mlines
@@ -384,16 +528,18 @@ class C20(Check):
         return {'shape': sh, 'kind': detail.get('kind') if isinstance(detail, dict) else None, 'ops': sorted(set().union(*[fml.ops(f) for f in c['fs']]))}
 
     def features(self, c):
-        return sorted(set().union(*[fml.ops(f) for f in c['fs']])) + (['named_subspec_referenced'] if c.get('ref') else []) + (['unreferenced_assertion'] if len(c['fs']) > 1 and not c.get('ref') else [])
+        bc = bounds_class(c)
+        return (sorted(set().union(*[fml.ops(f) for f in c['fs']])) + (['named_subspec_referenced'] if c.get('ref') else []) + (['unreferenced_assertion'] if len(c['fs']) > 1 and not c.get('ref') else [])
+                + ([bc] if bc else []) + (['period_set_after_parse'] if c.get('late') and c.get('period_ms') else []))
 
     def nontrivial(self, c):
         return True
 
     def key(self, c):
-        return json.dumps([[fml.to_sx(f) for f in c['fs']], c['cols'], c.get('cols2'), c.get('ref')])
+        return json.dumps([[fml.to_sx(f) for f in c['fs']], c['cols'], c.get('cols2'), c.get('ref'), spec_text(c)[0] if c.get('bstyle') else None, period_text(c) if c.get('bstyle') else None])
 
     def describe(self, c):
-        return {'spec': spec_text(c)[0], 'trace': dataset(c, c['cols'])}
+        return dict({'spec': spec_text(c)[0], 'trace': dataset(c, c['cols'])}, **period_text(c))
 
 
 def main(tier, seed, replay=None):
